@@ -27,7 +27,7 @@ import (
 )
 
 func TestMain(m *testing.M) {
-	vstat.Rule("Programs over the middleware set: a stack of depth 1-6 drawn with repetition from {stream, trace, connlimit, ratelimit, cbreaker, roundrobin, roundrobin+sticky, rebalancer(roundrobin), buffer}, each configured not to intervene (limits above use, unsatisfiable breaker condition, pool of 1-3 servers, buffer limits above sizes), plus a variant in which exactly one layer is driven to intervene (connlimit limit 0; ratelimit drained by a warm-up request; breaker tripped by warm-up 502s under a frozen clock; empty pool; request body over the buffer's maximum). Innermost handler script: optional informational 1xx, status explicit or implicit, 0-5 headers incl. multi-valued, body as 0-5 writes, flush between writes, or hijack + raw bytes. The top-level writer is an event-recording writer implementing Flusher, Hijacker and CloseNotifier. Oracle: differential against the bare handler on an identical recorder: same status, same header multiset except the sticky cookie, same body bytes, same hijacked bytes; handler invoked exactly once; Hijacker available inside it, Flusher available and flushes reach the recorder unless a buffer is in the stack. Intervening variant: handler not invoked, exactly one status written and it is the documented one (429/429/503/500/413) with a body. Non-trivial: depth >= 3 with >= 2 distinct kinds and a handler that flushes, hijacks or relies on the implicit status, or an intervening layer that is not the outermost.")
+	vstat.Rule("Programs over the middleware set: a stack of depth 1-6 drawn with repetition from {stream, trace, connlimit, ratelimit, cbreaker, roundrobin, roundrobin+sticky, rebalancer(roundrobin), buffer}, each configured not to intervene (limits above use, unsatisfiable breaker condition, pool of 1-3 servers, buffer limits above sizes), plus a variant in which exactly one layer is driven to intervene (connlimit limit 0; ratelimit drained by a warm-up request; breaker tripped by warm-up 502s under a frozen clock; empty pool; request body over the buffer's maximum). Innermost handler script: optional informational 1xx, status explicit or implicit, 0-5 headers incl. multi-valued, body as 0-5 writes, flush between writes, or hijack + raw bytes. The top-level writer is an event-recording writer implementing Flusher, Hijacker and CloseNotifier. Oracle: differential against the bare handler on an identical recorder: same status, same header multiset except the sticky cookie, same body bytes, same hijacked bytes; handler invoked exactly once; Hijacker available inside it, Flusher available and flushes reach the recorder unless a buffer is in the stack. Intervening variant: handler not invoked, exactly one status written and it is the documented one (429/429/503/500/413) with a body. Non-trivial: depth >= 3 with >= 2 distinct kinds and a handler that flushes, hijacks or relies on the implicit status, or an intervening layer that is not the outermost. Later additions: handlers may set trailers (http.TrailerPrefix) after the body, compared separately from the head; hijacking handlers may call WriteHeader(200) before Hijack (CONNECT style).")
 	vstat.Main(m.Run)
 }
 
